@@ -59,6 +59,8 @@ func vxSoupRun(toks []token.Token, tab *VxTable, maxK int, mkOpts func() []Parse
 	tree, err := p.Parse(toks)
 	vx.Notef("accepted=%v", err == nil)
 	vx.Assert("C01.value_or_error", (tree != nil) != (err != nil))
+	// C08: a finished parse - accepted or not - leaves the nesting counter where it found it
+	vx.Assertf("C08.depth_zero_after_parse", p.depth == 0, "nesting depth is %d after Parse returned (accepted=%v)", p.depth, err == nil)
 	if err != nil {
 		vxCheckError(err)
 		return
@@ -170,6 +172,10 @@ var vxCutCorpus = []string{
 	"SELECT CASE END , CASE WHEN 1 THEN 2 END , CAST ( a AS ) FROM t",
 	"SELECT a FROM t LEFT JOIN u ON t . a = u . a JOIN v ON u . b = v . b CROSS JOIN w JOIN x USING ( a )",
 	"INSERT INTO t ( a , b ) VALUES ( 1 , 2 ) , ( 3 , 4 ) , ( 5 , 6 )",
+	"SELECT a FROM t WHERE a IN ( WITH c AS ( SELECT 1 ) SELECT b FROM c ) AND EXISTS ( WITH d AS ( SELECT 2 ) SELECT 1 FROM d )",
+	"SELECT a FROM ( SELECT b FROM ( SELECT c FROM u ) x ) y WHERE a = ( SELECT MAX ( b ) FROM v )",
+	"SELECT a FROM t WHERE a NOT LIKE 'x' AND b NOT ILIKE 'y' AND c NOT IN ( 1 ) AND d NOT BETWEEN 1 AND 2 AND e IS NOT NULL",
+	"SELECT COUNT ( * ) FROM t HAVING COUNT ( * ) > ( SELECT MAX ( n ) FROM l )",
 }
 
 var vxCutToks = func() [][]token.Token {
